@@ -699,8 +699,13 @@ int32_t pstm_read_radix(psPool_t *pool, pstm_int *a,
          */
         if (y < radix)
         {
-            pstm_mul_d(a, (pstm_digit) radix, a);
-            pstm_add_d(pool, a, (pstm_digit) y, a);
+            int32_t res;
+
+            if ((res = pstm_mul_d(a, (pstm_digit) radix, a)) != PSTM_OKAY ||
+                (res = pstm_add_d(pool, a, (pstm_digit) y, a)) != PSTM_OKAY)
+            {
+                return res;
+            }
         }
         else
         {
